@@ -211,7 +211,7 @@ def r3(ctx):
     ctx.sub(c09.r4, drop=("result-field:bayesian", "result-field:calinski", "result-field:markov", r"result-state:\w+@bayesian",
                           r"result-state:\w+@calinski", r"result-state:\w+@markov"))
     # nothing refits or relabels after the relabel of a round (the scored means/MRFs are the ones the cost was computed with)
-    ctx.sub(c09.r2, only=("order:", "every-round:relabel"))
+    c09.lifecycle(ctx, {"nothing-after-relabel"})
 
 
 @rule("C06", "R4", "AGREE", "the multi-series result copies every aggregate field from the master result under the same name", floor=10)
